@@ -657,6 +657,15 @@ func (t *Tr) applyModifies(ct *Contract, env *Env, key string) {
 	// heaps the callee is known not to write survive a `*`
 	kept := map[string]string{}
 	for _, pc := range ct.Preserves {
+		if strings.HasPrefix(pc.Src, "maps(") {
+			// domain and values of every map of this type
+			if mt := t.preservedMapType(ct, pc); mt != nil {
+				md, mv := t.mapHeaps(t.cur, mt)
+				kept["MD_"+typeKey(mt)] = md
+				kept["MV_"+typeKey(mt)] = mv
+			}
+			continue
+		}
 		if strings.HasSuffix(pc.Src, ".*") {
 			// every field of the struct type
 			ts, err := parseTypeString(strings.TrimSuffix(pc.Src, ".*"))
@@ -1238,10 +1247,33 @@ func (t *Tr) frameFormula(st *State, allowed map[string]bool, only map[string]bo
 
 // frameAtReturn checks the function's own modifies clause: every heap not
 // named is unchanged on objects that existed at entry.
+func (t *Tr) preservedMapType(ct *Contract, pc Clause) *types.Map {
+	ts, err := parseTypeString(strings.TrimSuffix(strings.TrimPrefix(pc.Src, "maps("), ")"))
+	if err != nil {
+		efail("%s:%d: %v", pc.File, pc.Line, err)
+	}
+	ty, err := t.w.resolveType(ts, ct.Pkg)
+	if err != nil {
+		return nil // type of a package not loaded in this run
+	}
+	mt, ok := ty.Underlying().(*types.Map)
+	if !ok {
+		efail("%s:%d: preserves %s: not a map type", pc.File, pc.Line, pc.Src)
+	}
+	return mt
+}
+
 // preservedHeaps: the heaps a `preserves` clause names.
 func (t *Tr) preservedHeaps(ct *Contract) map[string]bool {
 	out := map[string]bool{}
 	for _, pc := range ct.Preserves {
+		if strings.HasPrefix(pc.Src, "maps(") {
+			if mt := t.preservedMapType(ct, pc); mt != nil {
+				out["MD_"+typeKey(mt)] = true
+				out["MV_"+typeKey(mt)] = true
+			}
+			continue
+		}
 		if strings.HasSuffix(pc.Src, ".*") {
 			ts, err := parseTypeString(strings.TrimSuffix(pc.Src, ".*"))
 			if err != nil {
@@ -1415,6 +1447,13 @@ func (t *Tr) appendBuiltin(c *ssa.CallCommon, res ssa.Value, pos token.Pos) {
 	// ground instances of the update for the first appended element (a valid
 	// instance of the range axiom; gives the solvers a term to match on)
 	t.assume(fmt.Sprintf("(=> (> %s 0) (= (select %s %s) %s))", addLen, row, linNorm(fmt.Sprintf("(+ %s %s)", noff, slen)), elemAt("0")))
+	// the same copy read from the old side (an instance schema of the range
+	// axiom with a trigger on the old element, so that facts about old elements
+	// carry over to the new slice without a term naming the new element)
+	t.n++
+	bk := fmt.Sprintf("ak_%d", t.n)
+	t.assume(fmt.Sprintf("(forall ((%s Int)) (! (=> (and (<= 0 %s) (< %s %s)) (= (select %s (+ %s %s)) (select %s (+ %s %s)))) :pattern ((select %s (+ %s %s)))))",
+		bk, bk, bk, slen, row, noff, bk, oldRow, soff, bk, oldRow, soff, bk))
 	t.setVal(res, fmt.Sprintf("(mk-slice %s %s %s %s)", nbase, noff, newLen, ncap))
 	_ = pos
 }
